@@ -142,8 +142,9 @@ def judge(ctx, key, out, exp, wit):
         return
     if r['ok'] != expected_ok(r['grade_decimal']):
         ctx.violation(key + ':ok', 'grade %r with ok=%r' % (r['grade_decimal'], r['ok']), wit)
-    if r['msg'] not in exp[2]:
-        ctx.violation(key + ':message', 'message %r, acceptable %r' % (r['msg'], sorted(exp[2])), wit)
+    msg = lib.strip_debug(r['msg'])
+    if msg not in exp[2]:
+        ctx.violation(key + ':message', 'message %r, acceptable %r' % (msg, sorted(exp[2])), wit)
     if any(exp[2]) and '' not in exp[2]:
         ctx.count('message_expected')
 
@@ -153,6 +154,9 @@ def run_main(ctx):
     for i in range(ctx.n(6400, 150000)):
         table, lists, cfg = make_case(rng)
         n = len(lists[0]['items'])
+        if i % 9 == 4:
+            cfg['debug'] = True       # the log is appended to the message; grade, ok and the message proper are unchanged
+            ctx.count('debug_cases')
         g = build(table, lists, cfg, use_tuple_expect=(i % 3 == 0))
         # submission: derived from a target list (permuted / truncated / extended / corrupted) or random
         base = [alts[0][0] for alts in rng.choice(lists)['alts']]
